@@ -15,20 +15,16 @@
     * hence `encodeData … false` succeeds on the same subsets with the same report
                                                           (`C05_walk_encodeData_transparent_partial`).
 
-  `_partial`: what is missing for the full property ("… decode to identical values") is the
-  decoder half — `encPrimsCX ⟶ decPrimsC` (an indexed simulation exactly like `primSim_enc_dec`, with
-  the column round trip `C05_column_roundtrip` / `C05_string_column_roundtrip` in the place of the
-  field codecs) composed with this projection and with `C03_walk_roundtrip`; see notes/C05Walk.md.
-
-  FULL STATEMENT (not proved here):
-    theorem C05_walk_transparent (t valss) (h : encodeCompressedX' t valss = .ok (os, canons, b)) :
-      decodeCompressed t valss.length (b.reverse ++ rest) = .ok (withCanon os canons, rest) ∧
-      ∀ k row, valss[k]? = some row → ∃ o b', encodeSubset t row [] = .ok (o, b') ∧
-        decodeSubset t (b'.reverse ++ rest') = .ok ((withCanon os canons)[k], rest')
-  where `encodeCompressedX'` additionally refuses values that hit the all-ones pattern of their field
-  and missing values in one-bit fields (both decode differently compressed / uncompressed).
+  The two `_partial` theorems are the ENCODER half.  The decoder half and the full property are in the
+  second part of this file: `C05_walk_compressed_roundtrip`, `C05_walk_subset_canon`,
+  `C05_walk_transparent`, `C05_walk_transparent_eq`, for `encodeCompressedT` — `encodeCompressedX`
+  with the further refusals without which compressed and uncompressed decoding differ (a missing
+  value in a one-bit field next to present ones, fields wider than 64 bits, structural values that do
+  not read back as supplied); see there.
 -/
 import BufrModel.Lemmas.SimComp
+import BufrModel.Lemmas.SimCompDec
+import BufrModel.Props.C03Walk
 namespace Bufr
 
 /-- the checked compressed encoder on a whole data section -/
@@ -157,16 +153,349 @@ example :
         (fun x => (decodeCompressed tmpl8 2 x.2.reverse).map (fun y => y.1.map (·.vals)))
       = .ok (.ok [[.int 0], [.int 300]]) := by decide +kernel
 
-/-- Why the full statement needs one more refusal: 255 is the all-ones pattern of an 8-bit field.
-    Uncompressed it reads back as missing; in a compressed column next to a different value it reads
-    back as 255 (the decoder re-checks the field's missing pattern only for code / flag tables). -/
+/-- 255 is the all-ones pattern of an 8-bit field.  Uncompressed it reads back as missing; since the repair of
+    finding F18 (`_all_ones_as_missing` in the compressed encoder, mirrored by `encIntColumnN`) a compressed
+    column treats it as missing too, so both encodings agree (before, it read back as 255 when compressed). -/
 example :
     (encodeSubset tmpl8 [.int 255] []).map
         (fun x => (decodeSubset tmpl8 x.2.reverse).map (fun y => y.1.vals)) = .ok (.ok [.missing]) ∧
     (encodeCompressed tmpl8 [[.int 0], [.int 255]]).map
         (fun x => (decodeCompressed tmpl8 2 x.2.reverse).map (fun y => y.1.map (·.vals)))
-      = .ok (.ok [[.int 0], [.int 255]]) := by decide +kernel
+      = .ok (.ok [[.int 0], [.missing]]) := by decide +kernel
 
 end C05WalkEx
+
+/-! ## The decoder half: compressed round trip and TRANSPARENCY
+
+  The statements are about `encodeCompressedT`: the compressed encoder CHECKED FOR TRANSPARENCY
+  (`encPrimsCT`, `Lemmas/SimCompDec.lean`), i.e. `encodeCompressedX` with ghost rows (per subset, the
+  values a decoder returns) and the further refusals listed at `encPrimsCT`: numeric / code / flag
+  fields wider than 64 bits; a missing value in a ONE-BIT field of a column whose subsets do not all
+  supply the same value; a replication factor or bitmap entry whose field does not read back as
+  supplied.  Each is shown necessary by an example below (`C05WalkTEx`).  A present value equal to the
+  all-ones pattern of its field is NOT refused (since the repair of finding F18 both forms read it
+  back as missing).  Whenever it succeeds,
+    * `encodeCompressedX`, hence the real compressed encoder, succeeds with the same report and
+      bits                                                              (`C05_walk_eraseT`);
+    * the compressed decoder, run on those bits followed by anything, consumes exactly them and
+      returns for every subset the same labels and links and the canonical values
+                                                                        (`C05_walk_compressed_roundtrip`);
+    * the checked uncompressed encoder accepts every subset alone, with the same labels, links and
+      the SAME canonical values                                         (`C05_walk_subset_canon`);
+    * hence both forms decode to the same `List SubsetOut`               (`C05_walk_transparent`,
+                                                                         `C05_walk_transparent_eq`). -/
+
+/-- ghost rows at the start: one empty row per subset -/
+def ghostInit (valss : List (List Val)) : List (Nat × List Val) := valss.map (fun _ => (0, []))
+
+/-- the compressed encoder checked for transparency on a whole data section: the report per subset,
+    the canonical values per subset (what a decoder returns), the bits (most recent first) -/
+def encodeCompressedT (tmpl : List Desc) (valss : List (List Val)) :
+    CM (List SubsetOut × List (List Val) × Bits) :=
+  match walkList encPrimsCT tmpl { bits := [], vals := valss, forced := ghostInit valss } with
+  | .error e => .error e
+  | .ok s => .ok (valss.map (fun l => { descs := s.descs.reverse, vals := l, links := s.links.reverse }),
+                  s.forced.map (·.2.reverse), s.bits)
+
+/-- whatever `encodeCompressedT` accepts, `encodeCompressedX` accepts, with the same report and bits -/
+theorem C05_walk_eraseT {t : List Desc} {valss : List (List Val)}
+    {os : List SubsetOut} {canons : List (List Val)} {b : Bits}
+    (h : encodeCompressedT t valss = .ok (os, canons, b)) : encodeCompressedX t valss = .ok (os, b) := by
+  unfold encodeCompressedT at h
+  unfold encodeCompressedX
+  cases hw : walkList encPrimsCT t { bits := [], vals := valss, forced := ghostInit valss } with
+  | error e => rw [hw] at h; cases h
+  | ok s =>
+    rw [hw] at h
+    cases h
+    obtain ⟨t', ht', h1, h2, h3, h4, h5, h6⟩ :=
+      walk_sim primSim_ct_cx (s := { bits := [], vals := valss, forced := ghostInit valss })
+        (t := { bits := [], vals := valss }) ⟨rfl, rfl, rfl, rfl, rfl, rfl⟩ hw
+    rw [ht']
+    simp only [h2, h3, h6]
+
+/-- the decoder run that mirrors a run of the checked compressed encoder -/
+theorem C05_walk_dec_run {t : List Desc} {valss : List (List Val)} {s : St}
+    (hw : walkList encPrimsCT t { bits := [], vals := valss, forced := ghostInit valss } = .ok s)
+    (rest : Bits) :
+    ∃ t', walkList decPrimsC t { bits := s.bits.reverse ++ rest, vals := List.replicate valss.length [] }
+        = .ok t' ∧ RelCD valss.length rest s t' := by
+  obtain ⟨i, ⟨hW, out, hi⟩, hsim⟩ :=
+    walk_sim_ix (primSim_ct_dec (s.bits.reverse ++ rest) rest valss.length) hw (j := rest) ⟨rfl, [], rfl⟩
+  have hi' : i = s.bits.reverse ++ rest := by simpa using hW
+  subst hi'
+  exact hsim { bits := s.bits.reverse ++ rest, vals := List.replicate valss.length [] }
+    ⟨rfl, rfl, rfl, rfl, by simp [ghostInit, List.map_const'], by simp [ghostInit], rfl⟩
+
+theorem c05w_withCanon_map (D : List DDesc) (K : List (Nat × Nat)) (g : (Nat × List Val) → List Val) :
+    ∀ (valss : List (List Val)) (forced : List (Nat × List Val)), forced.length = valss.length →
+      withCanon (valss.map (fun l => ({ descs := D, vals := l, links := K } : SubsetOut))) (forced.map g)
+        = forced.map (fun x => ({ descs := D, vals := g x, links := K } : SubsetOut))
+  | [], [], _ => rfl
+  | [], _ :: _, h => by simp at h
+  | _ :: _, [], h => by simp at h
+  | v :: vs, f :: fs, h => by
+    have ih := c05w_withCanon_map D K g vs fs (by simpa using h)
+    simp only [withCanon, List.map_cons, List.zipWith_cons_cons] at ih ⊢
+    rw [ih]
+
+/-- COMPRESSED ROUND TRIP: what the checked compressed encoder accepts is written by the compressed
+    encoder, and the compressed decoder reads it back — for every subset the same descriptor labels,
+    the same attribute links, the canonical values — leaving exactly what followed. -/
+theorem C05_walk_compressed_roundtrip {t : List Desc} {valss : List (List Val)}
+    {os : List SubsetOut} {canons : List (List Val)} {b : Bits}
+    (h : encodeCompressedT t valss = .ok (os, canons, b)) :
+    encodeCompressed t valss = .ok (os, b) ∧
+      ∀ rest, decodeCompressed t valss.length (b.reverse ++ rest) = .ok (withCanon os canons, rest) := by
+  refine ⟨C05_walk_erase (C05_walk_eraseT h), fun rest => ?_⟩
+  unfold encodeCompressedT at h
+  cases hw : walkList encPrimsCT t { bits := [], vals := valss, forced := ghostInit valss } with
+  | error e => rw [hw] at h; cases h
+  | ok s =>
+    rw [hw] at h
+    cases h
+    obtain ⟨t', ht', h1, h2, h3, h4, h5, h6, h7⟩ := C05_walk_dec_run hw rest
+    unfold decodeCompressed
+    rw [ht']
+    simp only [St.outs, h2, h3, h4, h5, c05w_withCanon_map _ _ _ valss s.forced h6, List.map_map]
+    rfl
+
+/-- the number of subsets reported -/
+theorem C05_walk_T_lengths {t : List Desc} {valss : List (List Val)}
+    {os : List SubsetOut} {canons : List (List Val)} {b : Bits}
+    (h : encodeCompressedT t valss = .ok (os, canons, b)) :
+    os.length = valss.length ∧ canons.length = valss.length := by
+  unfold encodeCompressedT at h
+  cases hw : walkList encPrimsCT t { bits := [], vals := valss, forced := ghostInit valss } with
+  | error e => rw [hw] at h; cases h
+  | ok s =>
+    rw [hw] at h
+    cases h
+    obtain ⟨t', _, _, _, _, _, _, h6, _⟩ := C05_walk_dec_run hw []
+    simp [h6]
+
+/-- SAME CANONICAL VALUES, per subset: the checked UNCOMPRESSED encoder (`encodeSubsetX`, the
+    hypothesis of the C03 round trip) accepts every subset alone, after any bits `pre`, and computes
+    the report and the canonical values that the compressed run has for that subset. -/
+theorem C05_walk_subset_canon {t : List Desc} {valss : List (List Val)}
+    {os : List SubsetOut} {canons : List (List Val)} {b : Bits}
+    (h : encodeCompressedT t valss = .ok (os, canons, b))
+    {k : Nat} {row : List Val} (hk : valss[k]? = some row) (pre : Bits) :
+    ∃ o c b', encodeSubsetX t row pre = .ok (o, c, b') ∧ os[k]? = some o ∧ canons[k]? = some c := by
+  unfold encodeCompressedT at h
+  cases hw : walkList encPrimsCT t { bits := [], vals := valss, forced := ghostInit valss } with
+  | error e => rw [hw] at h; cases h
+  | ok s =>
+    rw [hw] at h
+    cases h
+    obtain ⟨t', ht', h1, h2, h3, h4, _, ⟨g, hg, haux⟩⟩ :=
+      walk_sim (primSim_ct_ux k) (s := { bits := [], vals := valss, forced := ghostInit valss })
+        (t := { bits := pre, vals := [row] })
+        ⟨rfl, rfl, rfl, rfl, ⟨row, hk, rfl⟩, ⟨(0, []), by simp [ghostInit, hk], rfl⟩⟩ hw
+    refine ⟨{ descs := t'.descs.reverse, vals := row, links := t'.links.reverse }, t'.aux.reverse,
+      t'.bits, ?_, ?_, ?_⟩
+    · unfold encodeSubsetX
+      rw [ht']
+    · simp only [List.getElem?_map, hk, Option.map_some, h2, h3]
+    · simp only [List.getElem?_map, hg, Option.map_some, haux]
+
+/-- the checked uncompressed encoder accepts the whole data section, same report, same canonical values -/
+theorem C05_walk_dataUX {t : List Desc} {valss : List (List Val)}
+    {os : List SubsetOut} {canons : List (List Val)} {b : Bits}
+    (h : encodeCompressedT t valss = .ok (os, canons, b)) :
+    ∃ bitsU, encodeDataUX t valss = .ok (os, canons, bitsU) := by
+  obtain ⟨hlo, hlc⟩ := C05_walk_T_lengths h
+  have key : ∀ (n : Nat) (pre : Bits),
+      ∃ bits, encodeSubsetsX t (valss.drop n) pre = .ok (os.drop n, canons.drop n, bits) := by
+    intro n
+    induction hm : valss.length - n generalizing n with
+    | zero =>
+      intro pre
+      rw [List.drop_eq_nil_of_le (by omega), List.drop_eq_nil_of_le (by omega),
+        List.drop_eq_nil_of_le (by omega)]
+      exact ⟨pre, rfl⟩
+    | succ m ih =>
+      intro pre
+      have hlt : n < valss.length := by omega
+      obtain ⟨o, c, b', he, ho, hc⟩ :=
+        C05_walk_subset_canon h (k := n) (row := valss[n]) (by simp [hlt]) pre
+      obtain ⟨bits, hb⟩ := ih (n + 1) (by omega) b'
+      have hon : o = os[n]'(by omega) := by
+        rw [List.getElem?_eq_getElem (by omega)] at ho
+        exact (Option.some.inj ho).symm
+      have hcn : c = canons[n]'(by omega) := by
+        rw [List.getElem?_eq_getElem (by omega)] at hc
+        exact (Option.some.inj hc).symm
+      rw [List.drop_eq_getElem_cons hlt, List.drop_eq_getElem_cons (by omega : n < os.length),
+        List.drop_eq_getElem_cons (by omega : n < canons.length)]
+      refine ⟨bits, ?_⟩
+      simp only [encodeSubsetsX, he, hb, hon, hcn]
+  obtain ⟨bits, hb⟩ := key 0 []
+  have hb0 : encodeSubsetsX t valss [] = .ok (os, canons, bits) := by simpa using hb
+  exact ⟨bits.reverse, by simp [encodeDataUX, hb0]⟩
+
+/-- TRANSPARENCY OF COMPRESSION (C05, walk level).  For value lists accepted by the compressed
+    encoder checked for transparency: both encoders accept them and report the same labels, values
+    and links; and both decoders, run on the respective bits followed by anything, consume exactly
+    those bits and return THE SAME list of subsets — descriptor labels, attribute links and values
+    (the canonical values `canons`). -/
+theorem C05_walk_transparent {t : List Desc} {valss : List (List Val)}
+    {os : List SubsetOut} {canons : List (List Val)} {b : Bits}
+    (h : encodeCompressedT t valss = .ok (os, canons, b)) :
+    ∃ bitsU,
+      encodeData t true valss = .ok (os, b.reverse) ∧
+      encodeData t false valss = .ok (os, bitsU) ∧
+      ∀ rest,
+        decodeData t true valss.length (b.reverse ++ rest) = .ok (withCanon os canons, rest) ∧
+        decodeData t false valss.length (bitsU ++ rest) = .ok (withCanon os canons, rest) := by
+  obtain ⟨bitsU, hU⟩ := C05_walk_dataUX h
+  obtain ⟨heU, hdU⟩ := C03_walk_roundtrip_data hU
+  obtain ⟨heC, hdC⟩ := C05_walk_compressed_roundtrip h
+  refine ⟨bitsU, by simp [encodeData, heC], heU, fun rest => ⟨?_, hdU rest⟩⟩
+  simpa [decodeData] using hdC rest
+
+/-- encode, then decode what was written: the subsets as a reader of the message sees them -/
+def roundTripData (tmpl : List Desc) (compressed : Bool) (valss : List (List Val)) : CM (List SubsetOut) :=
+  match encodeData tmpl compressed valss with
+  | .error e => .error e
+  | .ok (_, bits) => match decodeData tmpl compressed valss.length bits with
+    | .error e => .error e
+    | .ok (os, _) => .ok os
+
+/-- TRANSPARENCY as an equation: the same subsets encoded compressed and uncompressed decode to
+    identical values, descriptor labels and attribute links. -/
+theorem C05_walk_transparent_eq {t : List Desc} {valss : List (List Val)}
+    {os : List SubsetOut} {canons : List (List Val)} {b : Bits}
+    (h : encodeCompressedT t valss = .ok (os, canons, b)) :
+    roundTripData t true valss = roundTripData t false valss ∧
+      roundTripData t true valss = .ok (withCanon os canons) := by
+  obtain ⟨bitsU, heC, heU, hd⟩ := C05_walk_transparent h
+  obtain ⟨hdC, hdU⟩ := hd []
+  simp only [List.append_nil] at hdC hdU
+  simp only [roundTripData, heC, heU, hdC, hdU, and_self]
+
+/-! ### non-vacuity of the transparency theorem, and why each refusal is there -/
+
+namespace C05WalkTEx
+
+/-- a numeric element, a delayed replication of a code-table element, a character element -/
+def tmpl : List Desc :=
+  [ .elem { id := 12001, kind := .numeric, nbits := 12, scale := 1, ref := -100 },
+    .delayedRep 101000 (.elem { id := 31001, kind := .numeric, nbits := 8, scale := 0, ref := 0 })
+      [ .elem { id := 20003, kind := .codeflag, nbits := 4, scale := 0, ref := 0 } ],
+    .elem { id := 1015, kind := .string, nbits := 16, scale := 0, ref := 0 } ]
+
+/-- three subsets with equal replication factors; missing numeric, code and character entries -/
+def valss : List (List Val) :=
+  [ [ .num 215 1, .int 2, .int 3, .missing, .bytes [65] ],
+    [ .num 180 1, .int 2, .int 5, .int 7, .bytes [66, 67] ],
+    [ .missing, .int 2, .missing, .int 7, .missing ] ]
+
+/-- what both decoders return: "A" padded, the missing string as 0xFF bytes -/
+def canons : List (List Val) :=
+  [ [ .num 215 1, .int 2, .int 3, .missing, .bytes [65, 32] ],
+    [ .num 180 1, .int 2, .int 5, .int 7, .bytes [66, 67] ],
+    [ .missing, .int 2, .missing, .int 7, .bytes [255, 255] ] ]
+
+/-- the hypothesis of the theorems is satisfiable: accepted, 155 bits, canonical values as expected -/
+theorem accepted :
+    (encodeCompressedT tmpl valss).map (fun x => (x.2.1, x.2.2.length)) = .ok (canons, 155) := by
+  decide +kernel
+
+/-- both sides of the transparency equation computed directly on the model -/
+example :
+    (roundTripData tmpl true valss).map (·.map (·.vals)) = .ok canons ∧
+    (roundTripData tmpl false valss).map (·.map (·.vals)) = .ok canons ∧
+    roundTripData tmpl true valss = roundTripData tmpl false valss := by decide +kernel
+
+/-- … and obtained from the theorem -/
+example : roundTripData tmpl true valss = roundTripData tmpl false valss := by
+  cases h : encodeCompressedT tmpl valss with
+  | error e => have := accepted; rw [h] at this; cases this
+  | ok r =>
+    obtain ⟨os, cs, b⟩ := r
+    exact (C05_walk_transparent_eq h).1
+
+def tmpl8 : List Desc := [ .elem { id := 12001, kind := .numeric, nbits := 8, scale := 0, ref := 0 } ]
+def tmplC4 : List Desc := [ .elem { id := 20003, kind := .codeflag, nbits := 4, scale := 0, ref := 0 } ]
+def tmpl1 : List Desc := [ .elem { id := 12001, kind := .numeric, nbits := 1, scale := 0, ref := 0 } ]
+def tmpl65 : List Desc := [ .elem { id := 12001, kind := .numeric, nbits := 65, scale := 0, ref := 0 } ]
+def tmpl63 : List Desc := [ .elem { id := 12001, kind := .numeric, nbits := 63, scale := 0, ref := 0 } ]
+
+/-- Refusal 3 is necessary (a missing value in a one-bit field, next to a present value):
+    `encodeCompressedX` accepts, `encodeCompressedT` refuses; compressed it comes back missing,
+    uncompressed as the value 1. -/
+example :
+    (encodeCompressedX tmpl1 [[.missing], [.int 0]]).toBool = true ∧
+    (encodeCompressedT tmpl1 [[.missing], [.int 0]]).toBool = false ∧
+    (roundTripData tmpl1 true [[.missing], [.int 0]]).map (·.map (·.vals)) = .ok [[.missing], [.int 0]] ∧
+    (roundTripData tmpl1 false [[.missing], [.int 0]]).map (·.map (·.vals)) = .ok [[.int 1], [.int 0]] := by
+  decide +kernel
+
+/-- … and it is tight: when all subsets are missing in the one-bit field no increments are written,
+    both forms read back the value 1, and `encodeCompressedT` accepts. -/
+example :
+    (encodeCompressedT tmpl1 [[.missing], [.missing]]).toBool = true ∧
+    roundTripData tmpl1 true [[.missing], [.missing]] = roundTripData tmpl1 false [[.missing], [.missing]] ∧
+    (roundTripData tmpl1 true [[.missing], [.missing]]).map (·.map (·.vals)) = .ok [[.int 1], [.int 1]] := by
+  decide +kernel
+
+/-- Refusal 2 (a field wider than 64 bits) is necessary for the ROUND TRIP statements: both encoders
+    write the field, neither decoder reads it (the equation of transparency holds as error = error). -/
+example :
+    (encodeCompressedX tmpl65 [[.int 0], [.int 1]]).toBool = true ∧
+    (encodeCompressedT tmpl65 [[.int 0], [.int 1]]).toBool = false ∧
+    roundTripData tmpl65 true [[.int 0], [.int 1]] = .error .other ∧
+    roundTripData tmpl65 false [[.int 0], [.int 1]] = .error .other := by
+  decide +kernel
+
+/-- Refusal 1 is necessary (`C05WalkEx` above): 300 in an 8-bit field is refused uncompressed, written
+    and read back compressed.  Here: `encodeCompressedT` refuses it, one form fails, the other not. -/
+example :
+    (encodeCompressedT tmpl8 [[.int 0], [.int 300]]).toBool = false ∧
+    (roundTripData tmpl8 true [[.int 0], [.int 300]]).map (·.map (·.vals)) = .ok [[.int 0], [.int 300]] ∧
+    (roundTripData tmpl8 false [[.int 0], [.int 300]]).toBool = false := by
+  decide +kernel
+
+/-- NOT refused: a present value that is the all-ones pattern of its field (255 in 8 bits, 15 in a
+    4-bit code table — also as the minimum of a column, next to a missing entry).  Since the repair
+    of finding F18 (`encIntColumnN`) the compressed encoder writes it as missing, which is what the
+    uncompressed field reads back as: accepted, and both forms decode to missing. -/
+example :
+    (encodeCompressedT tmpl8 [[.int 0], [.int 255]]).toBool = true ∧
+    (roundTripData tmpl8 true [[.int 0], [.int 255]]).map (·.map (·.vals)) = .ok [[.int 0], [.missing]] ∧
+    (roundTripData tmpl8 false [[.int 0], [.int 255]]).map (·.map (·.vals)) = .ok [[.int 0], [.missing]] ∧
+    (encodeCompressedT tmplC4 [[.int 15], [.missing]]).toBool = true ∧
+    (roundTripData tmplC4 true [[.int 15], [.missing]]).map (·.map (·.vals)) = .ok [[.missing], [.missing]] ∧
+    (roundTripData tmplC4 false [[.int 15], [.missing]]).map (·.map (·.vals)) = .ok [[.missing], [.missing]] ∧
+    (encodeCompressedT tmpl8 [[.int 255], [.int 255]]).toBool = true ∧
+    (roundTripData tmpl8 true [[.int 255], [.int 255]]).map (·.map (·.vals)) = .ok [[.missing], [.missing]] := by
+  decide +kernel
+
+/-- No refusal is needed for `Spec.SpanOK`: on a column whose spread needs a 64-bit increment the
+    compressed encoder itself fails (the uncompressed one does not: compression is not transparent
+    for ACCEPTANCE on 63- and 64-bit fields). -/
+example :
+    (encodeData tmpl63 true [[.int 0], [.int (2 ^ 63 - 2)]]).toBool = false ∧
+    (roundTripData tmpl63 false [[.int 0], [.int (2 ^ 63 - 2)]]).map (·.map (·.vals))
+      = .ok [[.int 0], [.int (2 ^ 63 - 2)]] := by
+  decide +kernel
+
+/-- Refusal 4 is necessary: a replication factor that does not read back as supplied.  The factor
+    element has scale 1 here, so the supplied 2 is written as 20 and read back as 2.0 — a decimal, on
+    which the decoders fail; both encoders replicate by the supplied 2. -/
+def tmplF : List Desc :=
+  [ .delayedRep 101000 (.elem { id := 31001, kind := .numeric, nbits := 8, scale := 1, ref := 0 })
+      [ .elem { id := 20003, kind := .codeflag, nbits := 4, scale := 0, ref := 0 } ] ]
+
+example :
+    (encodeCompressedX tmplF [[.int 2, .int 1, .int 1], [.int 2, .int 3, .int 1]]).toBool = true ∧
+    (encodeCompressedT tmplF [[.int 2, .int 1, .int 1], [.int 2, .int 3, .int 1]]).toBool = false ∧
+    (encodeData tmplF false [[.int 2, .int 1, .int 1], [.int 2, .int 3, .int 1]]).toBool = true ∧
+    (roundTripData tmplF true [[.int 2, .int 1, .int 1], [.int 2, .int 3, .int 1]]).toBool = false ∧
+    (roundTripData tmplF false [[.int 2, .int 1, .int 1], [.int 2, .int 3, .int 1]]).toBool = false := by
+  decide +kernel
+
+end C05WalkTEx
 
 end Bufr
